@@ -110,10 +110,14 @@ def idAt : TTree → List Bool → Nat → Nat
   | .leaf .., _ :: _, id => id
   | .node _ _ _ l r, b :: p, id => if b then idAt l p (id + 1) else idAt r p (id + 1 + ttNodes l)
 
-/-- is every lower bound below the distance of every point of its cell? -/
-def admissible (dist : Nat → Rat) : TTree → Bool
-  | .leaf _ lb lf => lf.pts.all fun i => decide (lb ≤ dist i)
-  | .node _ lb _ l r => ((l.pts ++ r.pts).all fun i => decide (lb ≤ dist i)) && admissible dist l && admissible dist r
+/-- is every lower bound below the distance of every point of its cell?  `slack` = 0 for
+kd-trees (exact arithmetic on integer data); LC/KHC bounds are rounded doubles
+(normalised normal vector, `dist*dist`), they may exceed the exact value by a few ulps:
+relative slack 2^-40 there (floating point, outside the model). -/
+def admissible (slack : Rat) (dist : Nat → Rat) : TTree → Bool
+  | .leaf _ lb lf => lf.pts.all fun i => decide (lb ≤ dist i + slack * (dist i + 1))
+  | .node _ lb _ l r => ((l.pts ++ r.pts).all fun i => decide (lb ≤ dist i + slack * (dist i + 1))) &&
+      admissible slack dist l && admissible slack dist r
 
 def stateStr (s : QState) : String :=
   let hd := match s.head with
@@ -153,10 +157,10 @@ def mkTrace (s : St) (q : Point) (ann : List (Rat × Bool)) : Option (TTree × B
     let dist := fun i => dist2 (s.P i) q
     if s.kind = "kd" then
       let t := kdTrace q dist tr Box.top
-      some (t, tracePairs t == ann, admissible dist t)
+      some (t, tracePairs t == ann, admissible 0 dist t)
     else
       let (t, _) := absTrace dist tr ann
-      some (t, true, admissible dist t)
+      some (t, true, admissible (1 / ((2 ^ 40 : Nat) : Rat)) dist t)
 
 def floatArith : Arith Float := { zero := 0.0, add := (· + ·), div := (· / ·), lt := fun a b => a < b }
 
